@@ -415,6 +415,15 @@ func (m *Manager) AllocateNAT(privateIP net.IP) (*Allocation, error) {
 	m.poolMu.Lock()
 	defer m.poolMu.Unlock()
 
+	// Two callers for the same subscriber can both pass the check above; the
+	// pool lock serialises them, so look again before allocating a second block
+	m.allocationMu.RLock()
+	if existing, ok := m.allocations[privKey]; ok {
+		m.allocationMu.RUnlock()
+		return existing, nil
+	}
+	m.allocationMu.RUnlock()
+
 	var selectedPool *PoolEntry
 	var poolIndex int
 	for i := range m.pool {
